@@ -171,6 +171,22 @@ func runC09(c *Ctx) {
 			switch qualFuncName(g) {
 			case "(*base64.Encoding).Encode":
 				R.Ob(c.siteKey(in, "encode with StdEncoding"), c.P.InstrPos(in), describe(cc.Args[0]) == "StdEncoding", "encoding is "+describe(cc.Args[0]))
+				// the destination is a buffer made for THIS response: make([]byte, EncodedLen(len(src))). A buffer kept
+				// from an earlier step (or sized otherwise) is sent whole: a shorter response drags the tail of the
+				// previous one along
+				exact := false
+				if ms, isMS := stripConv(cc.Args[1]).(*ssa.MakeSlice); isMS {
+					if lc, isCall := stripConv(ms.Len).(*ssa.Call); isCall {
+						if g2 := staticCallee(&lc.Call); g2 != nil && qualFuncName(g2) == "(*base64.Encoding).EncodedLen" && len(lc.Call.Args) == 2 {
+							if ln, isLen := stripConv(lc.Call.Args[1]).(*ssa.Call); isLen {
+								if bi, isB := ln.Call.Value.(*ssa.Builtin); isB && bi.Name() == "len" && stripConv(ln.Call.Args[0]) == stripConv(cc.Args[2]) {
+									exact = true
+								}
+							}
+						}
+					}
+				}
+				R.Ob(c.siteKey(in, "encoded into a buffer of exactly the encoded length"), c.P.InstrPos(in), exact, "the base64 destination is "+describe(cc.Args[1])+", not make([]byte, EncodedLen(len(response))) for this response: what is sent can be longer than the encoding (stale octets of an earlier step follow the response)")
 				for _, l := range leafSources(cc.Args[2]) {
 					R.Ob(c.siteKey(in, "encoded octets from "+l), c.P.InstrPos(in), l == "invoke:Client.Start#1" || l == "invoke:Client.Next#0" || l == "nil", "octets sent are "+l)
 				}
